@@ -27,7 +27,19 @@ fn strategy(tier: Tier) -> BoxedStrategy<BaseCase> {
     p.opening_all_secs = true;
     let mut mixed = p.clone();
     mixed.secs = vec!["Brk.b", "xeqt", "FOO"]; // symbols that are not all upper case
-    (prop_oneof![3 => ledger_strategy(p, 1), 1 => ledger_strategy(mixed, 1)], any::<u16>(), any::<bool>()).prop_map(|(ledger, x, costs)| {
+    // a security that is only ever SOLD (its shares all come from the opening position), one of the sales at a loss with a forced declared
+    // superficial loss - possible only with an opening position
+    let only_sold = (0usize..3, 0usize..4, any::<bool>()).prop_map(|(ni, vi, two)| {
+        use crate::gen::ymd;
+        let (n, cost) = [("10", "100"), ("30", "450"), ("7", "100.01")][ni];
+        let mk = |m: u8, d: u8, sh: &str, px: &str, sfl: &str| { let dt = ymd(2021, m, d); let mut r = HRow::new("FOO", dt, dt, Act::Sell); r.shares = sh.into(); r.price = px.into(); r.sfl = sfl.into(); r };
+        let mut rows = vec![mk(3, 1, "3", "5", ["-12!", "-5!", "0!", "-0.5!"][vi])];
+        if two { rows.push(mk(6, 1, "2", "20", "")); }
+        let mut other = HRow::new("BAR", ymd(2021, 2, 1), ymd(2021, 2, 1), Act::Buy); other.shares = "5".into(); other.price = "10".into();
+        rows.insert(0, other);
+        LedgerCase { rows, opening: vec![("FOO".into(), n.into(), cost.into())], tags: vec!["security-only-sold".into()] }
+    });
+    (prop_oneof![6 => ledger_strategy(p, 1), 2 => ledger_strategy(mixed, 1), 1 => only_sold.boxed()], any::<u16>(), any::<bool>()).prop_map(|(ledger, x, costs)| {
         // opening positions of symbols that do not occur in the input must change nothing
         let extra = match x % 4 { 0 => vec![], 1 => vec![("ZZZ".to_string(), "5".to_string(), "100".to_string())], 2 => vec![("ZZZ".into(), "0.25".into(), "0".into()), ("QQQ.UN".into(), "1000".into(), "12345.67".into())], _ => vec![("foo".into(), "3".into(), "30".into())] };
         BaseCase { ledger, extra_opening: extra, costs }
@@ -146,7 +158,8 @@ fn binary_order(_tier: Tier, _seed: u64, idx: u64, _of: u64, stats: &mut Stats) 
         match out {
             Ok(o) => {
                 let err = String::from_utf8_lossy(&o.stderr).to_string() + &String::from_utf8_lossy(&o.stdout);
-                if o.status.success() || !err.contains("symbol-base") || err.contains("input.csv") {
+                // (which words the message uses is the tool's business; that it comes before any file is touched is the property's)
+                if o.status.success() || err.trim().is_empty() || err.contains("input.csv") || err.contains("No such file") {
                     stats.failures.push(crate::engine::Failure { prop: "C16".into(), sub: "malformed".into(), message: format!("acb -b {spec:?} <unreadable file>: expected an error about --symbol-base before any file is read; status {:?}, output: {err}", o.status), case: json::object! { specs: vec![spec] } });
                 }
                 n += 1;
